@@ -1,0 +1,20 @@
+#ifndef NMTOOLS_VERIF_HPP
+#define NMTOOLS_VERIF_HPP
+
+// Verification hooks, compiled in only with -DNMTOOLS_VERIF.
+// A harness may define `extern "C" void nmtools_verif_event(int kind, long long a, long long b)`
+// to be told about events that are otherwise silent:
+//   1  bounded container asked to hold more than its capacity (a=requested, b=capacity); request ignored
+//   2  clipped integer clamped an out-of-range value (a=value, b=bound)
+//   3  evaluator skipped writing to an output because of a shape mismatch
+// Without such a definition (weak symbol) the hooks do nothing.
+
+#ifdef NMTOOLS_VERIF
+extern "C" void nmtools_verif_event(int kind, long long a, long long b) __attribute__((weak));
+#define NMTOOLS_VERIF_EVENT(kind,a,b) \
+    do { if (!__builtin_is_constant_evaluated() && nmtools_verif_event) nmtools_verif_event((kind),(long long)(a),(long long)(b)); } while (0)
+#else
+#define NMTOOLS_VERIF_EVENT(kind,a,b) ((void)0)
+#endif
+
+#endif // NMTOOLS_VERIF_HPP
